@@ -44,7 +44,7 @@ DESCS = ['NETFLIX.COM Uber eats', 'star-BUCKS  *7', "O'Reilly Café AMZN Mktp", 
          # the same accented word spelled with a composed letter and as letter + combining mark (macOS / iOS exports): different texts to a pattern
          'VENMO \U0001f355 night UBER', 'rent \U0001f3e0 GAS', 'pizza \U0001f355\U0001f355 COSTCO',
          'UBER  EATS 9', 'UBER EATS 9', 'STAR   BUCKS', 'STAR BUCKS', 'COSTCO\tGAS', 'COSTCO GAS', 'SQ  *STAR',
-         'CAF\u00c9 ROMA 12', 'CAFE\u0301 ROMA 12', 'caf\u00e9 roma UBER', 'cafe\u0301 roma GAS']
+         'CAF\u00c9 ROMA 12', 'CAFE\u0301 ROMA 12', 'caf\u00e9 roma UBER', 'cafe\u0301 roma GAS', 'WIRE [REF 123] OUT', 'CHECK [0042]', 'CHECK (0042)']
 
 
 def gen_pattern(rnd):
@@ -52,6 +52,9 @@ def gen_pattern(rnd):
     if rnd.random() < .08:
         # text pasted from a statement line: runs of blanks (or a tab) inside the pattern are part of the pattern
         return rnd.choice(['UBER  EATS', 'STAR   BUCKS', 'COSTCO\tGAS', 'SQ  \\*STAR', 'UBER EATS', 'STAR BUCKS', '%s  %s' % (a, b)])
+    if rnd.random() < .05:
+        # valid regular expressions for which Python's re module prints a FutureWarning ("possible nested set"): a literal bracket written as [[] / []]
+        return rnd.choice(['WIRE [[]REF \\d+[]]', 'CHECK\\s*[[(]\\d+[])]', 'A[+&&]B', '[[:upper:]]{4} \\(x\\)'])
     k = rnd.randint(0, 31)      # the last four are not valid regular expressions: the CSV loader accepts them, such a row never matches
     return [
         a, a.lower(), '%s|%s' % (a, b), '%s\\s*%s' % (a, b), '%s\\s+%s' % (a, b), '\\b%s\\b' % a, '\\B%s' % a, '^%s' % a, '%s$' % a, '\\A%s' % a,
@@ -307,6 +310,8 @@ def cli_migration_run(rec, rnd, tmp, k):
     rows = [(w, 'General %s' % w.title(), 'Shopping', 'Wholesale', ''), ('%s GAS[amount>5]' % w, '%s Gas' % w.title(), 'Transport', 'Fuel', 'car'),
             ('%s\\s+VIDEO' % w, '%s Video' % w.title(), 'Subs', 'Video', 'tv|monthly')]
     rows.append(('%s ANNUAL[month=1]' % w, 'Caf\u00e9 %s Annual' % w.title(), 'Fees', 'Jahresgeb\u00fchr', 'annual'))
+    # (a valid regular expression Python only WARNS about - a literal bracket written as a one-character set - ahead of the general rows)
+    rows.append(('WIRE [[]REF \\d+[]]', 'Wire Out', 'Transfers', 'Wire', 'wire'))
     rnd.shuffle(rows)
     # the statement has a column the format string captures under the name of a date part ({month}: a billing-period label); the month modifier of a rule
     # is about the transaction's DATE before and after migration
@@ -319,7 +324,7 @@ def cli_migration_run(rec, rnd, tmp, k):
     with open(os.path.join(root, 'data', 'card.csv'), 'w') as f:
         f.write(''.join(l + (',2025-0%d' % (1 + i % 2) if month_col else '') + '\n' for i, l in enumerate(
             ['Date,Description,Amount', '2025-01-03,%s GAS #0123,40.20' % w, '2025-01-04,%s VIDEO 9,8.99' % w, '2025-01-05,%s WHSE,120.00' % w, '2025-01-06,OTHER SHOP,3.00',
-             '2025-01-20,%s ANNUAL FEE,60.00' % w, '2025-02-20,%s ANNUAL FEE,60.00' % w])))
+             '2025-01-20,%s ANNUAL FEE,60.00' % w, '2025-02-20,%s ANNUAL FEE,60.00' % w, '2025-02-21,WIRE [REF 123] %s,75.00' % w])))
     # (every third run in a process whose preferred encoding is not UTF-8 - a C locale, a Windows code page: the rule files are UTF-8 files whoever reads them)
     other_locale = rnd.random() < .35
     envx = {'LC_ALL': 'C', 'LANG': 'C', 'PYTHONUTF8': '0', 'PYTHONCOERCECLOCALE': '0', 'PYTHONIOENCODING': 'utf-8'} if other_locale else None
@@ -349,6 +354,15 @@ def short_row_probe(rec, tmp):
     judge(rec, cr, txns, tmp, None, short_all=True)
 
 
+def bracket_set_probe(rec, tmp):
+    """Valid regular expressions that Python's re module only WARNS about (a literal bracket written as [[] or []], POSIX-looking classes): they match before the
+    migration and after it."""
+    cr = [R.CsvRule('WIRE [[]REF \\d+[]]', [], 'Wire Out', 'Transfers', 'Wire', ['wire']), R.CsvRule('CHECK\\s*[[(]\\d+[])]', [], 'Check', 'Bills', 'Check', []),
+          R.CsvRule('WIRE|CHECK', [], 'Other Bank', 'Bank', 'Misc', [])]
+    txns = [{'description': d, 'amount': 50.0, 'field': None, 'source': 'Amex', 'location': None, 'date': date(2025, 6, 1)} for d in ('WIRE [REF 123] OUT', 'CHECK [0042]', 'CHECK (0042)', 'WIRE FEE')]
+    judge(rec, cr, txns, tmp, None)
+
+
 def sharp_s_probe(rec, tmp):
     """Witness of the recorded finding 'description-with-multi-character-uppercase'."""
     cr = [R.CsvRule('STRASSE', [], 'Street Shop', 'Shopping', 'Misc', [])]
@@ -372,6 +386,7 @@ def run(rec, shard, nshards, t):
             sharp_s_probe(rec, tmp)
             empty_merchant_probe(rec, tmp)
             short_row_probe(rec, tmp)
+            bracket_set_probe(rec, tmp)
     finally:
         shutil.rmtree(tmp, ignore_errors=True)
 
